@@ -6,7 +6,7 @@ From RecordUpdate Require Import RecordSet.
 (* Model.ProxyCheck (the correspondence checker used by the case shards) is imported so that it is built with this file *)
 From MV Require Import Model.ProxyCheck.
 From MV Require Import Model.Proxy Model.ProxySpec Proofs.ProxyReach Proofs.ProxyFamily Proofs.ProxyFam Proofs.ProxyRefute
-  Proofs.ProxyThm Proofs.ProxyGen Proofs.ProxySrc Gen.ProxyTokens.
+  Proofs.ProxyThm Proofs.ProxySndErr Proofs.ProxyGen Proofs.ProxySrc Gen.ProxyTokens.
 Import ListNotations RecordSetNotations.
 Open Scope Z_scope.
 
@@ -34,6 +34,21 @@ Theorem c10_gauge_zero_at_idle_family : forall c, In c family -> forall sched, F
   (quiescent s = true -> no_defect s = true -> 1 + g_gauge g = 0).
 Proof. exact c10_gauge_family. Qed.
 Print Assumptions c10_gauge_zero_at_idle_family.
+(* the same over the histories in which the downstream sender returns errors from AppendHeaders (h) / AppendData (d) /
+   AppendTrailers (t): the code logs or discards them and goes on to endStream() (switch read from the source on this run), so
+   cleanStream still decrements the gauge exactly once *)
+Theorem c10_gauge_zero_at_idle_with_sender_errors_family : forall c, In c family -> forall h d t sched, Forall allowed sched ->
+  let s := final proxy_src (with_snd_err c h d t) sched in let g := summ proxy_src (with_snd_err c h d t) sched in
+  (g_gauge g = 0 \/ g_gauge g = -1) /\ (cleaned s = true <-> g_gauge g = -1) /\
+  (quiescent s = true -> no_defect s = true -> 1 + g_gauge g = 0).
+Proof. exact c10_gauge_snd_err. Qed.
+Print Assumptions c10_gauge_zero_at_idle_with_sender_errors_family.
+(* with the other handling (resetStream() and return; switch set back) a refused header-only reply leaves the gauge up for ever *)
+Example c10_sender_error_gauge_stuck :
+  quiescent (final src_append_error_resets cfg_hdr_refused (sched_answered false)) = true /\
+  g_gauge (summ src_append_error_resets cfg_hdr_refused (sched_answered false)) = 0 /\
+  g_gauge (summ src_tree cfg_hdr_refused (sched_answered false)) = -1.
+Proof. exact witness_sender_error_gauge_stuck. Qed.
 
 (* ---- the Retries resource ---- *)
 (* full statement for a source variant: never below its starting value on any prefix, and back to it once the stream is cleaned *)
